@@ -127,28 +127,30 @@ pub extern "C" fn c14_default_4() {
 }
 
 #[cfg(feature = "test-strategies")]
-mod ts {
-    use super::*;
-    #[allow(deprecated)]
-    use arc_swap::strategy::test_strategies::FillFastSlots;
-    use std::sync::RwLock;
+#[allow(deprecated)]
+use arc_swap::strategy::test_strategies::FillFastSlots;
+#[cfg(feature = "test-strategies")]
+use std::sync::RwLock;
 
-    #[no_mangle]
-    #[allow(deprecated)]
-    pub extern "C" fn c14_nofast_2() {
-        run::<FillFastSlots>(2, 0);
-    }
-    #[no_mangle]
-    #[allow(deprecated)]
-    pub extern "C" fn c14_nofast_3() {
-        run::<FillFastSlots>(3, 0);
-    }
-    #[no_mangle]
-    pub extern "C" fn c14_rwlock_2() {
-        run::<RwLock<()>>(2, 0);
-    }
-    #[no_mangle]
-    pub extern "C" fn c14_rwlock_3() {
-        run::<RwLock<()>>(3, 0);
-    }
+#[cfg(feature = "test-strategies")]
+#[no_mangle]
+#[allow(deprecated)]
+pub extern "C" fn c14_nofast_2() {
+    run::<FillFastSlots>(2, 0);
+}
+#[cfg(feature = "test-strategies")]
+#[no_mangle]
+#[allow(deprecated)]
+pub extern "C" fn c14_nofast_3() {
+    run::<FillFastSlots>(3, 0);
+}
+#[cfg(feature = "test-strategies")]
+#[no_mangle]
+pub extern "C" fn c14_rwlock_2() {
+    run::<RwLock<()>>(2, 0);
+}
+#[cfg(feature = "test-strategies")]
+#[no_mangle]
+pub extern "C" fn c14_rwlock_3() {
+    run::<RwLock<()>>(3, 0);
 }
